@@ -21,6 +21,12 @@ for p in props:
     if entry is None:
         na.append({"property_id": pid, "reason": DECLINED.get(pid, "static check not built yet in this round (see DESIGN.md §4 for the planned rules)")})
         continue
+    from sa import memo as _memo
+
+    cross = ""
+    if pid in _memo.ENTRIES:
+        cross = (" Cross-cutting rules run after the property's own and are attributed to it through the call graph of its entry points: memo-key-state (a memo's key covers the state the memoised code reads), "
+                 "identity-equality (record classes compare their identity fields; spec/identity.json) and diagnostic-purity (nothing evaluated for a log message consumes, mutates or creates state that outlives it; sa/diag.py).")
     checks.append(
         {
             "property_id": pid,
@@ -29,11 +35,15 @@ for p in props:
             "evidence_file": f"evidence/{pid}.json",
             "replay_cmd_template": f"./vcheck {pid} --replay {{path}}",
             "engine": "sa",
-            "level_claimed": {"category": "other", "text": entry["text"], "design_ref": f"DESIGN.md §4 {pid}"},
+            "level_claimed": {"category": "other", "text": entry["text"] + cross, "design_ref": f"DESIGN.md §4 {pid}"},
             "level_note": entry["note"],
             "technique": entry["technique"],
         }
     )
+_kf = json.load(open(os.path.join(V, "known_findings.json")))["findings"]
+N_FIXED = sum(1 for f in _kf if f.get("status") == "fixed")
+N_KNOWN = sum(1 for f in _kf if f.get("status") == "known")
+KNOWN_PIDS = ", ".join(sorted({f["property"] for f in _kf if f.get("status") == "known"}))
 man = {
     "version": 1,
     "setup_cmd": "/venv/bin/python -B -c \"import ast,glob,sys; [ast.parse(open(f).read(), f) for f in glob.glob('sa/*.py')+glob.glob('checks/*.py')]\"",
@@ -54,7 +64,7 @@ man = {
     ],
     "checks": checks,
     "not_applicable": na,
-    "notes": "All checks are static analyses of /repo's current source (level 'other'); each decides the structural clauses listed in DESIGN.md §4 for its property and states the residual it does not decide. Exit 0 held / 1 VIOLATION / 2 ANALYSIS-ERROR (anchor or idiom not recognised; never reported as a violation). known_findings.json lists genuine defects: 17 repaired by fix: commits in /repo, 1 known (C18).",
+    "notes": "All checks are static analyses of /repo's current source (level 'other'); each decides the structural clauses listed in DESIGN.md §4 for its property and states the residual it does not decide. Exit 0 held / 1 VIOLATION / 2 ANALYSIS-ERROR (anchor or idiom not recognised; never reported as a violation). " + f"known_findings.json lists genuine defects: {N_FIXED} repaired by fix: commits in /repo, {N_KNOWN} known ({KNOWN_PIDS}).",
 }
 json.dump(man, open(os.path.join(V, "MANIFEST.json"), "w"), indent=1)
 print(f"MANIFEST.json: {len(checks)} checks, {len(na)} not_applicable")
